@@ -13,8 +13,9 @@ META = {
         "(XOR-linear, no back end finishes); decided instead: all tables, the byte step, one slice step for every "
         "single non-zero byte lane, whole function for short lengths at all alignments; extension to all inputs is "
         "the GF(2)-linearity argument",
-        "read/write paths that call the set/verify routines (inode.c, dirblock.c, extent.c, ext_attr.c, "
-        "rw_bitmaps.c, mmp.c, closefs.c): only the routines themselves are encoded",
+        "read/write paths that call the set/verify routines (inode.c, dirblock.c, ext_attr.c, rw_bitmaps.c, mmp.c, "
+        "closefs.c, extent.c:update_path): only the routines themselves are encoded; of the read paths only "
+        "ext2fs_extent_get is (extget_p: a failed extent block read in any retry iteration is reported)",
         "inode sizes other than 128/256, descriptor sizes other than 32/64, block sizes other than the small ones "
         "listed per harness (the code is parametric in them)",
         "big-endian hosts",
@@ -121,6 +122,19 @@ HARNESSES = [
          unwind=4, backends=["default", "kissat"],
          bound="journal block size 64 bytes (descriptor/revoke tail, commit block, tagged data block); journal "
                "superblock 1024 bytes; every byte, the seed and the sequence number symbolic; csum v2 / v3 / none"),
+    dict(name="extget_p", src="extget_p.c",
+         funcs=["ext2fs_extent_get", "ext2fs_extent_header_verify"],
+         configs=[{"SCEN": 0, "OP": 7}, {"SCEN": 0, "OP": 2}, {"SCEN": 1, "OP": 7}, {"SCEN": 2, "OP": 8},
+                  {"SCEN": 0, "OP": 12}, {"SCEN": 0, "OP": 9}, {"SCEN": 1, "OP": 9},
+                  {"SCEN": 0, "OP": 7, "NL": 1}, {"SCEN": 0, "OP": 2, "NL": 1}, {"SCEN": 2, "OP": 8, "NL": 1},
+                  {"SCEN": 0, "OP": 7, "IGN": 1}, {"SCEN": 2, "OP": 8, "IGN": 1}],
+         unwind=9, unwindset=["vf_fill.0:40", "vf_fill.1:4", "vf_fill.2:4", "main.0:4", "main.1:4", "main.2:4",
+                              "ext2fs_extent_block_csum_verify.0:8"],
+         backends=["default", "kissat"],
+         bound="extent tree of depth 2 (root in i_block, 2 index blocks, 4 leaves), 2 index entries per node, 1 or 2 "
+               "extents per leaf, block size 36 bytes; start position concrete per query (after ROOT; last extent of "
+               "a leaf; first extent of a leaf); moves NEXT_LEAF, LAST_LEAF, PREV_LEAF, DOWN, NEXT; per-block checksum "
+               "verdicts, logical block numbers and extent payload symbolic"),
     dict(name="crc16_d", src="crc16_d.c", funcs=["ext2fs_crc16"],
          configs=[{"MODE": 2, "LEN": n} for n in (2, 0, 1, 3)] + [{"MODE": 1}],
          unwindset=["ref_crc16_byte.0:9", "main.0:5", "ext2fs_crc16.0:5"], backends=["default", "kissat", "z3"],
